@@ -55,6 +55,15 @@ func main() {
 			fmt.Fprintln(os.Stderr, err)
 			os.Exit(2)
 		}
+	case "shrink":
+		fs := flag.NewFlagSet("shrink", flag.ExitOnError)
+		in := fs.String("in", "", "")
+		out := fs.String("out", "", "")
+		_ = fs.Parse(os.Args[2:])
+		if err := sim.RunShrinkJob(*in, *out); err != nil {
+			fmt.Fprintln(os.Stderr, err)
+			os.Exit(2)
+		}
 	case "run":
 		fs := flag.NewFlagSet("run", flag.ExitOnError)
 		seed := fs.Int64("seed", 1, "")
